@@ -232,6 +232,45 @@ def run(ctx):
                    lambda j: "w_trxd_tx_parse " + " ".join(map(str, tobs[j]["sent"][0])), lambda j: back[j],
                    show=lambda j: dict(tn=reqs[j][0], fn=reqs[j][1], pwr=reqs[j][2], burst_len=len(reqs[j][3])))
     U.reuse_check(ctx, [("tx", octets) for j, octets in sent], [back[j] for j, _ in sent], "c04-parse-history")
+    # the same datagrams as they really arrive: through DATAInterface.recv_tx_msg() on a socket (data_if.py is anchored here: its
+    # receive size and version filter stand between trxcon's octets and the parser).  A datagram trxcon emits must come out of the
+    # interface as the very message the parser gives on the full octets - and so must every valid Tx message of the toolkit itself
+    import logging as _logging
+    from .. import fakesock
+    fakesock.install()
+    import data_if as _data_if
+    _saved_disable = _logging.root.manager.disable
+    _logging.disable(_logging.CRITICAL)
+    try:
+        difs = {v: _data_if.DATAInterface("127.0.0.1", 5802, "0.0.0.0", 5702) for v in (0, 1)}
+        difs[1].set_hdr_ver(1)
+        nvia = 0
+        own = [(None, list(o[1:])) for (m, legacy), o in zip(msgs, gen_obs) if m["kind"] == "tx" and o and o[0] == 0][:400 if quick else 4000]
+        for j, octets in list(sent) + own:
+            fresh = U.do_parse("tx", octets)
+            if fresh[0] != 0:
+                continue
+            ver = octets[0] >> 4
+            d = difs.get(ver)
+            if d is None:
+                continue
+            d.sock.inbox.append((bytes(octets), ("127.0.0.1", 5802)))
+            try:
+                got = d.recv_tx_msg()
+                via = [3] if got is None else [0] + U.enc(U.from_real(got))
+            except Exception as e:  # noqa
+                via = U.exc_class(e)
+            d.sock.inbox.clear()
+            nvia += 1
+            if via != fresh:
+                ctx.oracle_fail("a burst datagram (%d octets, %s) comes out of DATAInterface.recv_tx_msg() differently from what the parser gives on the octets sent"
+                                % (len(octets), "emitted by trxcon" if j is not None else "encoded by the toolkit"),
+                                dict(octets=list(octets[:12]), length=len(octets), source="trxcon" if j is not None else "toolkit"),
+                                key="c04-data-if-receive", expected=fresh[:12], observed=via[:12])
+                break
+        ctx.count("datagrams_through_DATAInterface", nvia)
+    finally:
+        _logging.disable(_saved_disable)
     for j, (tn, fn, pwr, bits) in enumerate(reqs):
         o = tobs[j]
         ctx.nontrivial(("c2py", len(bits) if len(bits) in (0, 148, 444) else ("short" if len(bits) < 148 else "mid" if len(bits) < 444 else "long" if len(bits) <= 506 else "overflow"),
